@@ -82,4 +82,10 @@ theorem flatMap_single {α β : Type} (f : α → β) (l : List α) : l.flatMap 
   | nil => rfl
   | cons a as ih => simp [List.flatMap_cons, ih]
 
+/-- `report_missed(reason)` = `reported = true; report_unfulfilled(...)` (`report_missed_order`), as one step. -/
+def reportMissed (kind : Nat → Nat → Nat → Report) (e : Nat) (s : World × List Ev) : World × List Ev :=
+  match s.1.exps e with
+  | some x => (s.1.setExp e { x with reported := true }, s.2 ++ [s.1.rep .nonfatal (kind e x.lo x.count)])
+  | none => s
+
 end Tromp.Tie
